@@ -1,4 +1,56 @@
-/- Driver of the `access` world (stub: to be written by the owner of this world). -/
+/-
+  Driver of the `access` world: answers every matrix cell
+      O n cell  <contract> <endpoint[@variant]> <role> <state>     expected ok / err
+      O n cellx <contract> <endpoint> <role> <state>               (call with best-effort arguments:
+                                                                    the harness claims it must be rejected)
+      O n nocall <contract> <endpoint> <role> <state>              (no minimal valid call could be built)
+  from the hand-written access table `Mx.Access.allowed`.  Import-free apart from Core/Driver.
+-/
+import MxModel.Core.Access
 import MxModel.Driver.Proto
 
-def main : IO Unit := Mx.Proto.mainLoop () (fun s _ => (s, none))
+open Mx Mx.Access Mx.Proto
+
+namespace Mx.AccessDriver
+
+def parseContract : String → Option Contract
+  | "pair" => some .pair | "router" => some .router | "farm" => some .farm | "fwlr" => some .fwlr
+  | "staking" => some .staking | "energy" => some .energy | "fees" => some .fees | "hub" => some .hub
+  | "unstake" => some .unstake | "lkmex" => some .lkmex | _ => none
+
+def parseRole : String → Option Role
+  | "owner" => some .owner | "admin" => some .admin | "pauser" => some .pauser | "wsc" => some .wsc
+  | "user" => some .user | "agent" => some .agent | "revoked" => some .revoked
+  | "blacklisted" => some .blacklisted | "router" => some .router | _ => none
+
+def parseState : String → Option CState
+  | "inactive" => some .inactive | "partial" => some .partialActive | "active" => some .active | _ => none
+
+def showPayee : Payee → String
+  | .na => "-" | .caller => "rew=caller" | .positionOwner => "rew=owner"
+
+def cell (n c e r s : String) : String :=
+  match parseContract c, parseRole r, parseState s with
+  | some c', some r', some s' =>
+      if allowed c' e r' s' then
+        let p := match lookup c' e with | some ent => showPayee ent.payee | none => "-"
+        s!"R {n} ok {c}.{e}.{r}.{s} | {p}"
+      else s!"R {n} err"
+  | _, _, _ => s!"R {n} err"
+
+def handle (_ : Unit) (line : String) : Unit × Option String :=
+  match words line with
+  | "W" :: rest => ((), some (" ".intercalate ("W" :: rest)))
+  | ["O", n, "cell", c, e, r, s] => ((), some (cell n c e r s))
+  | ["O", n, "cellx", c, e, r, s] => ((), some (cell n c e r s))
+  | ["O", n, "nocall", c, e, _, _] =>
+      -- nothing was executed; the endpoint must at least be classified
+      match (parseContract c).bind (fun c' => lookup c' e) with
+      | some _ => ((), some s!"R {n} ok nocall | -")
+      | none => ((), some s!"R {n} err")
+  | "O" :: n :: _ => ((), some s!"R {n} err")
+  | _ => ((), none)
+
+end Mx.AccessDriver
+
+def main : IO Unit := Mx.Proto.mainLoop () Mx.AccessDriver.handle
